@@ -328,6 +328,7 @@ def answer (line : String) : String :=
     (match start.toNat? with
      | some st => IR.semFind16Line flags ir hay st true
      | none => "bad-request")
+  | ["bitmapfind", set, hay, off] => ByteSearch.bitmapFindSetLine set hay off
   | ["print", flags, ast] => Print.printLine flags ast
   | ["lower", flags, ast] => Lower.lowerLine flags ast
   | ["esvalid", flags, pat] => ESG.esValidLine flags pat
